@@ -38,6 +38,16 @@ static inline cstring *cstring__lit(const char *p) { g_lit.len = 5; g_lit.id = _
 #define DECL_BT(N, T) DECL_SEQ_(bt_, N, T) \
   static inline unsigned long BlockTable_##N##__size(struct bt_##N *s) { return s->n; } \
   static inline void BlockTable_##N##__clear(struct bt_##N *s) { s->n = 0; }
-#define DECL_UMAP(N, K, V) DECL_SEQ_(umap_, N, struct pair_##N)
+/* A8 std::unordered_map as used by CdnsBlock (address event counts): find(k) returns an entry whose key equals k if there is one
+   (null = end()); operator[](k) returns the mapped value of that entry, inserting a new entry (size + 1) if there was none.
+   Whether k is present is arbitrary but consistent between the find and the operator[] of one add call (ghost umap_present). */
+_Bool umap_present;
+#define DECL_UMAP(N, K, V) DECL_SEQ_(umap_, N, struct pair_##N) \
+  static inline struct pair_##N *umap_##N##__find(struct umap_##N *s, K *k) { \
+    if (!umap_present) return (struct pair_##N *)0; \
+    struct pair_##N fresh; fresh.first = *k; umap_##N##__cur = fresh; return &umap_##N##__cur; } \
+  static inline V *umap_##N##__index(struct umap_##N *s, K *k) { \
+    if (!umap_present) { s->n++; umap_present = 1; } \
+    struct pair_##N fresh; fresh.first = *k; umap_##N##__cur = fresh; return &umap_##N##__cur.second; }
 #define DECL_PAIR(N, A, B) struct pair_##N { A first; B second; };
 #endif
